@@ -1,5 +1,5 @@
 """property -> rules"""
-from . import rules_dd, rules_bounds, rules_limits, rules_tools, rules_conv, rules_handles, rules_access, rules_coders, rules_errors, rules_layout, rules_ann, rules_mem, rules_sd, rules_cache, rules_attr, rules_gr, rules_ref, rules_repack, rules_stale
+from . import rules_dd, rules_bounds, rules_limits, rules_tools, rules_conv, rules_handles, rules_access, rules_coders, rules_errors, rules_layout, rules_ann, rules_mem, rules_sd, rules_cache, rules_attr, rules_gr, rules_ref, rules_repack, rules_stale, rules_idioms
 
 CLANG = "clang 14 parser, constant evaluator and CFG builder (via tools/h4x.cc)"
 CDB = "compile flags taken from ninja -t compdb of /repo/_build (or a throw-away cmake configure)"
@@ -302,6 +302,26 @@ PROPS["C13"]["explanation"] += " (SLOTCOPY) copies out of the SD file table `_cd
 
 PROPS["C11"]["rules"] = PROPS["C11"]["rules"] + [rules_ann.rule_lazy_tree]
 PROPS["C11"]["explanation"] += " (LAZYTREE) every routine that finds the per-type annotation tree not built yet (an_num == -1) builds it from the file with ANIcreate_ann_tree; only that builder starts a tree with tbbtdmake."
+
+PROPS["C07"]["rules"] = PROPS["C07"]["rules"] + [rules_idioms.rule_guarded_store, rules_idioms.rule_name_compare]
+PROPS["C07"]["explanation"] += " (GUARDSTORE) a field that is updated under `if (E > field)` (the record count of a Vdata after a write beyond its end) is set to E itself. (NAMECMP) look-up of Vdatas and Vgroups by name or class compares whole names."
+PROPS["C12"]["rules"] = PROPS["C12"]["rules"] + [rules_idioms.rule_guarded_store]
+PROPS["C08"]["rules"] = PROPS["C08"]["rules"] + [rules_idioms.rule_name_compare]
+PROPS["C08"]["explanation"] += " (NAMECMP) Vfind/VSfind/Vfindclass/VSfindclass compare whole names, never a fixed-length prefix."
+PROPS["C11"]["rules"] = PROPS["C11"]["rules"] + [rules_idioms.rule_cache_key]
+PROPS["C11"]["explanation"] += " (CACHEKEY) the single-file interfaces (DFAN and its siblings) compare the remembered file name with the new one before overwriting it, so directories cached for another file are never reused."
+PROPS["C15"]["rules"] = PROPS["C15"]["rules"] + [rules_idioms.rule_cache_key]
+PROPS["C15"]["explanation"] += " (CACHEKEY) every DF*Iopen routine compares Lastfile with the new file name before it overwrites it."
+PROPS["C01"]["rules"] = PROPS["C01"]["rules"] + [rules_idioms.rule_key_compare]
+PROPS["C01"]["explanation"] += " (KEYCMP) the predicate that finds another access record on the same element compares the file identity as well as tag/ref."
+PROPS["C13"]["rules"] = PROPS["C13"]["rules"] + [rules_idioms.rule_key_compare]
+PROPS["C13"]["explanation"] += " (KEYCMP) access records of different files are never matched with each other by HIgetspinfo's predicate."
+PROPS["C05"]["rules"] = PROPS["C05"]["rules"] + [rules_idioms.rule_encdec_symmetry]
+PROPS["C05"]["explanation"] += " (ENCDECSYM) the encoder and decoder of a coder advance the shared model cursor of the coder state by the same expression."
+PROPS["C18"]["rules"] = PROPS["C18"]["rules"] + [rules_idioms.rule_pair_an]
+PROPS["C18"]["explanation"] = PROPS["C18"]["explanation"].replace(" Not decided (value-level)", " (PAIRAN) a loop over annotations of one kind is bounded by the count ANfileinfo returned for that kind. Not decided (value-level)")
+PROPS["C19"]["rules"] = PROPS["C19"]["rules"] + [rules_idioms.rule_alloc_len, rules_idioms.rule_pair_an]
+PROPS["C19"]["explanation"] += " (ALLOCLEN) a byte-wise buffer comparison in hdiff covers the size both buffers were allocated with. (PAIRAN) annotation loops of the tools are bounded by the count of the kind they select."
 
 NOT_APPLICABLE = {}
 
